@@ -1636,7 +1636,11 @@ func (a *Authenticator) negotiateSecurity(negotiation *SecurityNegotiation) erro
 	// Find compatible crypto method - server preference order
 	for _, serverCrypto := range negotiation.ServerConfig.CryptoMethods {
 		for _, clientCrypto := range negotiation.ClientConfig.CryptoMethods {
-			if serverCrypto == clientCrypto {
+			// AES-GCM is the only cipher this build implements
+			// (setupStreamEncryption installs a key for nothing else). Agreeing on
+			// BLOWFISH / 3DES made a handshake with REQUIRED encryption succeed and
+			// report Encryption=true on a stream that stayed in the clear.
+			if serverCrypto == clientCrypto && serverCrypto == CryptoAES {
 				negotiation.NegotiatedCrypto = serverCrypto
 				break
 			}
